@@ -19,7 +19,7 @@ import shutil
 
 from .. import dtypes as A
 from .. import dtypes_b as B
-from ..common import HarnessError, Result, Timer, Violation, silence_labtech, stable_hash
+from ..common import HarnessError, Result, Timer, Violation, pmap, silence_labtech, stable_hash
 from ..paramtree import build, canon, describe, trees, tree_size
 
 INF = float('inf')
@@ -51,10 +51,12 @@ def space(tier: str):
         ts = trees(2, TINY, width=2, task_types=('Leaf', 'BLeaf'), inner_leaves=TINY)
         ts += [('s', v) for v in FULL if ('s', v) not in ts]
         ts += trees(1, FULL, width=1, task_types=('Leaf',), inner_leaves=FULL)
+        ts += trees(2, TINY[:2], width=2, task_types=('NoCacheT', 'JFoo'), inner_leaves=TINY[:2])
     else:
         ts = trees(2, SMALL, width=2, task_types=('Leaf', 'BLeaf'), inner_leaves=SMALL)
         ts += trees(3, TINY[:3], width=2, task_types=('Leaf',), inner_leaves=TINY[:3])
         ts += trees(1, FULL, width=2, task_types=('Leaf', 'BLeaf'), inner_leaves=FULL)
+        ts += trees(2, TINY, width=2, task_types=('NoCacheT', 'JFoo', 'Leaf'), inner_leaves=TINY)
     seen = set()
     out = []
     for t in ts:
@@ -98,23 +100,24 @@ def is_lookalike(item):
     return None
 
 
-def run(tier: str, seed: int) -> Result:
+def _chunk(args):
+    tier, lo, hi = args
     silence_labtech()
     from labtech.storage import LocalStorage
     from labtech.serialization import Serializer
     items = space(tier)
-    viols = []
-    by_key: dict = {}
-    evals = 0
-    tmp = tempfile.mkdtemp(prefix='c07_')
     ser = Serializer()
+    tmp = tempfile.mkdtemp(prefix='c07_')
+    viols = []
+    keys = []
+    forms = []
     try:
         storage = LocalStorage(tmp)
-        keys0 = []
-        for idx, it in enumerate(items):
+        for idx in range(lo, hi):
+            it = items[idx]
             t = make(it)
-            keys0.append(t.cache_key)
-            evals += 1
+            keys.append(t.cache_key)
+            forms.append(canon(t))
             d = item_desc(it)
 
             def bad(aspect, other):
@@ -137,13 +140,32 @@ def run(tier: str, seed: int) -> Result:
                     bad('reconstruct-from-metadata', t5.cache_key)
             except BaseException as e:  # noqa
                 bad('reconstruct-from-metadata', f'{type(e).__name__}: {e}')
-            # (c) storage acceptance
             try:
                 storage.exists(t.cache_key)
             except BaseException as e:  # noqa
                 viols.append(Violation('C07', 'key-rejected-by-LocalStorage', f'{d}: exists({t.cache_key!r}) raised {type(e).__name__}: {e}',
                                        {'item': repr(it), 'tier': tier, 'index': idx}, size=tree_size(it[1])))
-            by_key.setdefault(t.cache_key, []).append((canon(t), idx))
+    finally:
+        shutil.rmtree(tmp, ignore_errors=True)
+    return lo, keys, forms, viols
+
+
+def run(tier: str, seed: int) -> Result:
+    silence_labtech()
+    items = space(tier)
+    viols = []
+    by_key: dict = {}
+    evals = 0
+    tmp = tempfile.mkdtemp(prefix='c07_')
+    try:
+        keys0 = [None] * len(items)
+        step = max(200, len(items) // 64)
+        for lo, keys, forms, vs in pmap(_chunk, [(tier, lo, min(lo + step, len(items))) for lo in range(0, len(items), step)]):
+            viols.extend(vs)
+            for off, (k, c) in enumerate(zip(keys, forms)):
+                keys0[lo + off] = k
+                by_key.setdefault(k, []).append((c, lo + off))
+                evals += 1
         # (b) injectivity
         collisions = 0
         for k, lst in by_key.items():
